@@ -330,9 +330,22 @@ class Paths:
         out = []
         for conj in self._bool_cases(d, tv):
             s2 = st.fork()
-            if _add_facts(s2.facts, conj):
+            if _add_facts(s2.facts, [self._enum_fact(c) for c in conj]):
                 out.append(s2)
         return out
+
+    def _enum_fact(self, f):
+        """x == Enum::V / x != Enum::V for a field-less variant is a fact about the variant of x"""
+        if f[0] in ("eq", "ne"):
+            for a, b in ((f[1], f[2]), (f[2], f[1])):
+                vo = variant_of(a)
+                if vo is not None and not a[2] and variant_of(b) is None:
+                    adt = self.prog.adts.get(vo[0])
+                    names = [v["name"] for v in adt["variants"]] if adt else (list(STD_VARIANTS[vo[0]]) if vo[0] in STD_VARIANTS else None)
+                    if names and vo[1] in names:
+                        sel = (vo[1],) if f[0] == "eq" else tuple(sorted(n for n in names if n != vo[1]))
+                        return ("variant", b, sel)
+        return f
 
     def _bool_cases(self, d, tv):
         """DNF of (d == tv) as lists of facts"""
@@ -342,6 +355,8 @@ class Paths:
             conj = (d[1] == "BitAnd") == tv
             a, b = self._bool_cases(d[2], tv), self._bool_cases(d[3], tv)
             return [x + y for x in a for y in b] if conj else a + b
+        if d[0] == "const" and isinstance(d[1], bool):
+            return [[]] if d[1] == tv else []
         if d[0] == "bin" and d[1] in ("Lt", "Le", "Eq"):
             a, b = d[2], d[3]
             if d[1] == "Lt":
@@ -367,7 +382,19 @@ class Paths:
         out = []
         for facts, effects, val in cases:
             s2 = st.fork()
-            if not _add_facts(s2.facts, facts):
+            # a callee's `if flag` becomes a condition on the argument expression: bring it to fact form
+            nf = []
+            for fct in facts:
+                if fct[0] in ("true", "false") and fct[1][0] in ("bin", "un", "const"):
+                    alts = self._bool_cases(fct[1], fct[0] == "true")
+                    if len(alts) == 1:
+                        nf += [self._enum_fact(c) for c in alts[0]]
+                        continue
+                    if not alts:
+                        nf = None
+                        break
+                nf.append(self._enum_fact(fct))
+            if nf is None or not _add_facts(s2.facts, nf):
                 continue
             s2.effects += effects
             if val is not None:
@@ -454,7 +481,7 @@ class Paths:
         return [self._rebind(s, r) for s in self.of(g, depth + 1)]
 
     def _rebind(self, s, r):
-        f = lambda t: _simplify(self.canon.tree(subst(t, r)))
+        f = lambda t: _simplify(self.canon.tree(_norm_calls(subst(t, r))))
         facts = []
         for x in s.facts:
             facts.append(tuple(f(y) if _is_tree(y) else y for y in x))
@@ -612,12 +639,24 @@ class Paths:
                 return self._apply_callable(raw(0), cargs, depth)
             return None
         g = self.local_fn(path)
+        if g is None and path in ("<T as core::convert::Into<U>>::into", "core::convert::Into::into") and len(key[2]) == 2 and len(args) == 1:
+            g = self._from_impl(key[2][0], key[2][1])   # x.into() calls U::from(x)
         if g is not None and depth < self.depth and self._may_inline(g):
             try:
-                return self._inline_fn(g, [raw(i) for i in range(len(args))], key[2], depth)
+                return self._inline_fn(g, [raw(i) for i in range(len(args))], key[2] if g.path == path else (), depth)
             except Unsupported:
                 return None
         return None
+
+    def _from_impl(self, src, dst):
+        key = ("from", src, dst)
+        if key not in self._memo:
+            hit = None
+            for i in self.prog.impls.values():
+                if i.get("trait") == "core::convert::From" and "from" in i["fns"] and ty_str(i["self_ty"]) == dst and len(i.get("trait_args", [])) > 1 and ty_str(i["trait_args"][1]) == src:
+                    hit = self.prog.fns.get(i["fns"]["from"])
+            self._memo[key] = hit
+        return self._memo[key]
 
 
 # ---- helpers ---------------------------------------------------------------------------------------------
